@@ -99,4 +99,34 @@ theorem expired_first_resurrects :
     (∀ g ∈ G, keep g = false → Gens.expired 200 g = true) :=
   Gens.expired_first_resurrects
 
+/-- **… and across time** ("apart from keys whose expiry instant passes in between"): the first
+recovery runs at `now`, is cut anywhere in either phase, and the device is recovered again at
+`now' ≥ now`.  For every key the restarted recovery exposes what the first one exposed, unless
+that generation has expired by `now'` — then nothing; never an older generation. -/
+theorem recovery_restartable_later (now now' : Nat) (hle : now ≤ now') (G : List Gens.Gen) (hnd : G.Nodup)
+    (keep1 keep2 : Gens.Gen → Bool)
+    (h1 : ∀ k w, Gens.winner k G = some w → keep1 w = true)
+    (h2 : ∀ g ∈ Gens.winners G, keep2 g = false → Gens.expired now g = true) (k : Nat) :
+    Gens.exposed now' k (G.filter keep1) = (Gens.exposed now k G).filter (fun w => !Gens.expired now' w) ∧
+    Gens.exposed now' k ((Gens.winners G).filter keep2) = (Gens.exposed now k G).filter (fun w => !Gens.expired now' w) :=
+  Gens.two_phase_restartable_later now now' hle G hnd keep1 keep2 h1 h2 k
+
+/-- non-vacuity: a key that is live at the first recovery (now = 50) and expired at the second
+(now' = 200), with an older generation still on the device at the restart -/
+example :
+    let G : List Gens.Gen := [⟨1, 9, 100, 16⟩, ⟨1, 5, 0, 40⟩]
+    Gens.exposed 50 1 G = some ⟨1, 9, 100, 16⟩ ∧
+    (Gens.exposed 50 1 G).filter (fun w => !Gens.expired 200 w) = none ∧ Gens.exposed 200 1 G = none := by
+  decide
+
+/-- a scan that drops expired records *before* the newest-wins comparison (seeded change C04-5)
+makes the winner depend on the clock: the superseded generation comes back -/
+theorem drop_expired_before_selection_resurrects :
+    let old : Gens.Gen := ⟨1, 5, 0, 40⟩
+    let new : Gens.Gen := ⟨1, 9, 100, 16⟩
+    let G := [new, old]
+    Gens.exposed 50 1 G = some new ∧ Gens.exposed 200 1 G = none ∧
+    Gens.exposedDropFirst 50 1 G = some new ∧ Gens.exposedDropFirst 200 1 G = some old :=
+  Gens.drop_expired_before_selection_resurrects
+
 end Feox.C04
